@@ -88,17 +88,29 @@ class quiet:
 
 
 def make_balancer(cfg):
+    """Fresh Balancer (as a new process would build it). `assign` lists public attributes that are set
+    after construction instead of through the constructor (both are documented usage)."""
     from synrbl import Balancer
 
-    return Balancer(
+    assign = dict(cfg.get("assign") or {})
+    thr = cfg.get("threshold", 0)
+    kw = {}
+    if "confidence_threshold" in assign:
+        assign["confidence_threshold"] = thr
+    else:
+        kw["confidence_threshold"] = thr
+    bal = Balancer(
         id_col=cfg.get("id_col", "id"),
         reaction_col=cfg.get("reaction_col", "reaction"),
-        confidence_threshold=cfg.get("threshold", 0),
         n_jobs=cfg.get("n_jobs", 1),
         batch_size=cfg.get("batch_size"),
         cache=bool(cfg.get("cache", False)),
         cache_dir=cfg.get("cache_dir", seams.SIMFS_ROOT + "/cache"),
+        **kw,
     )
+    for k, v in assign.items():
+        setattr(bal, k, v)
+    return bal
 
 
 def make_inputs(rows, source, reaction_col):
@@ -127,6 +139,9 @@ def make_inputs(rows, source, reaction_col):
             w = csv.writer(f)
             w.writerow(cols)
             for r in dict_rows:
+                if not r:
+                    f.write("\r\n")  # a blank line: the reader yields an empty record
+                    continue
                 w.writerow(["" if r.get(c) is None else r.get(c) for c in cols])
     else:
         raise HarnessError("unknown source %r" % source)
